@@ -86,6 +86,16 @@ def isLookup (env : Env) (e : Kevent) : Bool := env.nameOf e == some "VFS_LOOKUP
 def parseVnodes (env : Env) (events : List Kevent) : Except PyErr (List Vnode) :=
   vnodeGen env.dec (events.filter (isLookup env)) [] 0 []
 
+/-- `parser.parse_vnode(events)`: `try: return self.parse_vnodes(events)[0] except IndexError: return Vnode([], 0, '')`.
+    The handler catches EVERY IndexError of the `try` body — also one raised inside `parse_vnodes` (which the real
+    `bytes.decode()` never raises; `dec` is arbitrary here). -/
+def parseVnode (env : Env) (events : List Kevent) : Except PyErr Vnode :=
+  match parseVnodes env events with
+  | .ok (v :: _) => .ok v
+  | .ok [] => .ok ⟨[], 0, ""⟩
+  | .error .indexError => .ok ⟨[], 0, ""⟩
+  | .error e => .error e
+
 /-- The decoder IR's view of a window: START/END words, lookups, and the context tables. -/
 def mkWindow (env : Env) (t : Tabs) (events : List Kevent) (needLookups : Bool := true) :
     Except PyErr Window := do
